@@ -27,7 +27,7 @@ Dims == [
   qsig     |-> <<"ok", "otherKey", "zero", "sHigh">>,
   ak       |-> <<"ok", "offCurve", "zero", "swapped">>,
   mut      |-> <<"none", "header", "body", "ak", "qeReport", "authData", "sig", "qeSig">>,
-  bind     |-> <<"ok", "wrongHash", "nonZeroTail">>,
+  bind     |-> <<"ok", "wrongHash", "nonZeroTail", "authPrefix", "akOnly", "authSuffix">>,
   qeSigner |-> <<"leaf", "otherLeaf", "inter", "foreign">>,   \* otherLeaf: the platform's other PCK key (valid for a quote embedding that leaf)
   authLen  |-> <<"n32", "n0", "big">>,
   extra    |-> <<"none", "some">>,
@@ -40,7 +40,8 @@ Dims == [
                                                \* RootOfTrustToOptions from bundle files / inline PEM / both / an empty file / a non-PEM string
   leafRole |-> <<"pck", "wrongCN", "pckByRoot", "caAsLeaf", "tcbSignByRoot">>,
   leafId   |-> <<"l1", "l2">>,                 \* which of the platform's two PCK leaves the chain carries (both honest)
-  interSlot |-> <<"inter", "root">>,           \* certificate carried in the intermediate position of the chain
+  serials  |-> <<"std", "oddHex", "highBit", "tiny">>,   \* shape of every certificate serial: even hex digits / top nibble zero / top bit set (DER pads with 00) / single byte
+  interSlot |-> <<"inter", "root", "otherCA">>,           \* certificate carried in the intermediate position of the chain
   src      |-> <<"gen", "intel">>,             \* generated world / the genuine Intel sample quote with its recorded collateral
   nBlocks  |-> <<"n3", "n2", "n4">>,
   trailer  |-> <<"none", "nul", "nulnul", "junk">>,
@@ -62,10 +63,12 @@ Dims == [
   qeMeta      |-> <<"ok", "wrongId", "wrongVersion", "noLevels", "levelsOmitted", "memberMissing">>,
   \* signed content (C04, C07; refined in TcbLevels.tla)
   tcbContent |-> <<"ok", "laterMatch", "laterMatchTdx", "laterMatchPce", "fmspcUpper", "fmspc", "pceid", "mrsigner", "attrs",
-                   "outOfDate", "revoked", "swHardening", "configNeeded", "noLevel">>,
+                   "outOfDate", "revoked", "swHardening", "configNeeded", "noLevel",
+                   "attrsShort", "attrsEmpty", "attrsLong", "mrsignerShort">>,     \* lengths: a mask / value that does not span the quote's field
   modBranch  |-> <<"none", "modOk", "modOutOfDate", "modMissing", "modNoLevel", "modOmitted">>,
   qeContent  |-> <<"ok", "laterMatch", "maskedDiff", "maskZero", "valueOutsideMask", "misc", "miscHigh", "attrs", "mrsigner", "prodid",
-                   "outOfDate", "revoked", "swHardening", "noLevel">>,
+                   "outOfDate", "revoked", "swHardening", "noLevel",
+                   "attrsShort", "attrsEmpty", "attrsLong", "miscShort", "mrsignerShort">>,
   \* revocation (C05)
   pckCrlRev     |-> <<"none", "nearMiss", "many", "leaf", "leafFirst", "leafAmongMany">>,
   rootCrlRev    |-> <<"none", "nearMiss", "inter", "tcbSigner", "qeSigner">>,
